@@ -696,23 +696,25 @@ Theorem roundtrip_fields_cover_state :
   /\ (60 <= length roundtrip_fields)%nat.
 Proof. split; vm_compute; [reflexivity|lia]. Qed.
 
-(* every device field get_data_into reads is filled by put_data from the MjData, EXCEPT the listed ones (finding:
-   efc.state / efc.island stay zero, the island arrays are wp.empty) -- partial: the list should be empty *)
-Definition known_unfilled : list string :=
-  ["efc.state"; "efc.island"; "island_idofadr"; "island_dofadr"; "island_nv"; "island_nefc"; "island_ne"; "island_nf"; "island_iefcadr";
-   "map_dof2idof"; "map_idof2dof"; "map_efc2iefc"; "map_iefc2efc"]%string.
-
-Theorem get_reads_filled_partial :
+(* every device field get_data_into reads is filled by put_data from the MjData (same-named field, expression over mjd, or constant):
+   none is left zero / wp.empty.  Before commit b3ed252 thirteen were not (efc.state, efc.island, the island_ and map_ arrays). *)
+Theorem get_reads_filled :
   forall f, In f (all_reads get_reads) ->
-    (exists k, kind_of data_fields f = Some k /\ (k = FHost \/ k = FExplicit \/ k = FConst)) \/ In f known_unfilled.
+    exists k, kind_of data_fields f = Some k /\ (k = FHost \/ k = FExplicit \/ k = FConst).
 Proof.
-  assert (H : forallb (fun f => match kind_of data_fields f with Some FHost | Some FExplicit | Some FConst => true | _ => false end
-                                || existsb (String.eqb f) known_unfilled) (all_reads get_reads) = true) by (vm_compute; reflexivity).
-  rewrite forallb_forall in H. intros f Hf. specialize (H f Hf). apply orb_true_iff in H. destruct H as [H|H].
-  - left. destruct (kind_of data_fields f) as [k|]; [|discriminate]. exists k. split; [reflexivity|].
-    destruct k; try discriminate; auto.
-  - right. apply existsb_exists in H. destruct H as [x [Hx He]]. apply String.eqb_eq in He. subst. exact Hx.
+  assert (H : forallb (fun f => match kind_of data_fields f with Some FHost | Some FExplicit | Some FConst => true | _ => false end)
+                      (all_reads get_reads) = true) by (vm_compute; reflexivity).
+  rewrite forallb_forall in H. intros f Hf. specialize (H f Hf).
+  destruct (kind_of data_fields f) as [k|]; [|discriminate]. exists k. split; [reflexivity|].
+  destruct k; try discriminate; auto.
 Qed.
+
+Theorem unfilled_reads_empty : unfilled_reads data_fields get_reads = [].
+Proof. vm_compute. reflexivity. Qed.
+
+(* the efc re-indexing block of the CURRENT get_data_into is the repaired one (statement-level match by bin/extract_io.py) *)
+Theorem current_variant_fixed : efc_idx_variant = "fixed"%string.
+Proof. vm_compute. reflexivity. Qed.
 
 (* hypotheses of put_get_roundtrip_fixed are satisfiable, on the very state that refutes the old re-indexing *)
 Example put_get_roundtrip_fixed_example :
